@@ -3,6 +3,7 @@ package scen
 import (
 	"fmt"
 	"sort"
+	"strings"
 
 	"verifsim/simrt"
 )
@@ -38,6 +39,7 @@ type Result struct {
 	Owned     bool              `json:"owned,omitempty"` // the violation belongs to the property being checked
 	Cases     int               `json:"cases,omitempty"` // evaluations inside this run (crash states, fault points)
 	Known     map[string]string `json:"known,omitempty"` // listed findings met by this run (pattern -> example)
+	Shape     string            `json:"shape,omitempty"` // coarse signature of the case (distinct counting)
 }
 
 // Profiles per property for the seq engine.
@@ -202,5 +204,31 @@ func Run(p Params) *Result {
 	if r.V != nil {
 		r.Owned = OwnsTag(p.Prop, r.V.Tag) || r.V.Tag == "panic"
 	}
+	if r.Shape == "" {
+		r.Shape = shapeOf(r)
+	}
 	return r
+}
+
+// shapeOf is the coarse signature used to count distinct cases: the
+// configuration class, the scenario-specific class (fault set, schedule
+// generator, variant ...) and which operations / oracle outcomes occurred with
+// which multiplicity (capped), i.e. two runs with the same shape exercised the
+// same kinds of steps under the same kind of configuration.
+func shapeOf(r *Result) string {
+	var parts []string
+	for _, k := range SortedStatKeys(r.Stats) {
+		if strings.HasPrefix(k, "op:") || strings.HasPrefix(k, "probe:") || strings.HasPrefix(k, "fault:") {
+			n := r.Stats[k]
+			if n > 3 {
+				n = 3
+			}
+			parts = append(parts, fmt.Sprintf("%s=%d", k, n))
+		}
+	}
+	d := r.Decisions
+	if d > 50 {
+		d = 50 + d/50
+	}
+	return fmt.Sprintf("%s|%v|d%d", r.Class, parts, d)
 }
